@@ -1194,7 +1194,7 @@ func genC04(r *rand.Rand, tier string, idx int) *World {
 	}
 	w := genHistory(r, tier, o)
 	w.Extra["c02prop"] = "C04"
-	w.Extra["c04end"] = pick(r, "hold", "hold", "promote", "revert", "promote-dirty")
+	w.Extra["c04end"] = pick(r, "hold", "hold", "promote", "revert", "promote-dirty", "promote-dirty")
 	w.Cfg.StrategyEdits = chance(r, 0.5)
 	if c := w.EDS[0].Strategy.Canary; c != nil && chance(r, 0.2) {
 		c.Replicas = pick(r, "0", "0%") // a canary that owns no node
@@ -1320,12 +1320,17 @@ func bodyC04(s *Sim) {
 			s.RunCLI("canary-validate", key)
 			s.RunTask(CtrlEDS, key)
 			ck := types.NamespacedName{Namespace: def.NS, Name: cr.Name}
+			verb := pick(r, "delete", "patch") // the clean-up deletion fails, or the removal of the label itself
+			s.Probe("c04.promote-dirty-" + verb)
 			for i := 0; i < 3; i++ {
-				_, fired := s.RunTaskWithFault(CtrlERS, ck, "reject", func(c *Call) bool { return c.Verb == "delete" && c.Kind == KPod })
+				s.Advance(s.maxFrequency() + time.Second) // past the resync gate of the last canary sync
+				_, fired := s.RunTaskWithFault(CtrlERS, ck, "reject", func(c *Call) bool { return c.Verb == verb && c.Kind == KPod })
 				if fired {
-					s.Stats.NonVacuous["C04.promoted-with-failing-cleanup"]++
+					s.Stats.NonVacuous["C04.promoted-with-failing-"+verb]++
 				}
-				s.Advance(11 * time.Second)
+				if verb == "patch" && fired {
+					break // one failed attempt; the next syncs have to try again
+				}
 			}
 		}
 	}
